@@ -9,7 +9,8 @@ Read from the repo's working tree (fails closed on anything outside the tiny sub
   * the simulator link (autd3-link-simulator/src/lib.rs) must move frames with `TxRawData::from(tx)`,
     acknowledgements with `Vec::<RxMessage>::from_msg(…)` and geometries with `Geometry::from(geometry)`
     (the three conversions the model is about) and `receive` must copy the decoded acknowledgements only
-    behind the equal-length test — otherwise the model no longer describes the link.
+    behind the equal-length test — otherwise the model no longer describes the link; `update` must re-send the
+    geometry exactly when `geometry.version()` differs from the recorded one (early `return Ok(())` on equality).
 """
 import os
 import re
@@ -188,6 +189,18 @@ def generate(repo, emit):
         raise Unsupported(f"{rel}: `receive` no longer has the shape `if rx.len() == rx_.len() {{ rx.copy_from_slice(&rx_); Ok(true) }} else {{ Ok(false) }}` that Model/PbCodec.lean `linkReceive` mirrors")
     if src.count("copy_from_slice") != 1:
         raise Unsupported(f"{rel}: more than one copy_from_slice in the simulator link")
+    # `update`: the geometry is re-sent exactly when its version changed since the last transfer: early return on an
+    # equal version, then the version is recorded and `Geometry::from(geometry)` goes out (not modelled; tied by shape
+    # only, like `receive`). An inverted test would never re-send a moved geometry and re-send an unchanged one on
+    # every frame.
+    if not re.search(r"asyncfnupdate\(&mutself,(\w+):&[\w:]*Geometry\)->Result<\(\),LinkError>\{"
+                     r"ifself\.(\w+)==\1\.version\(\)\{returnOk\(\(\)\);\}"
+                     r"self\.\2=\1\.version\(\);"
+                     r"self\.client\.update_geomety\(Geometry::from\(\1\)\)\.await", src):
+        raise Unsupported(f"{rel}: `SimulatorInner::update` no longer has the shape `if self.last_geometry_version == geometry.version() {{ return Ok(()); }} self.last_geometry_version = geometry.version(); self.client.update_geomety(Geometry::from(geometry)).await…`")
+    # … and `open` records the version of the geometry it configured
+    if not re.search(r"\.config_geomety\(Geometry::from\((\w+)\)\)\.await.*?Ok\(Self\{client,(\w+):\1\.version\(\),?\}\)", src):
+        raise Unsupported(f"{rel}: `SimulatorInner::open` no longer configures `Geometry::from(geometry)` and records `geometry.version()`")
 
     body = f"""/-! GENERATED by tools/gen.d/pbcodec.py from the repo's working tree. Do not edit. -/
 namespace Autd3.Gen.PbCodec
